@@ -101,6 +101,7 @@ def gen_case(rng, tier):
             op["dgms"] = [gen_dgm(rng, allow_empty=rng.random() < 0.3) for _ in range(nd)]
             op["as_list"] = nd > 1 or rng.random() < 0.5
             op["int_arrays"] = rng.random() < 0.3
+            op["layout"] = rng.choice(("c", "c", "c", "fortran", "transposed"))
             if rng.random() < 0.45:
                 op["pool_ids"] = [rng.randrange(len(pool)) for _ in range(nd)]
                 op["dgms"] = [pool[i]["pts"] for i in op["pool_ids"]]
@@ -115,7 +116,13 @@ def gen_case(rng, tier):
             if rng.random() < 0.3:
                 o["title"] = "T%d" % rng.randrange(100)
             if rng.random() < 0.3:
-                o["labels"] = ["L%d" % i for i in range(nd)] if rng.random() < 0.7 or nd > 1 else "one"
+                r_ = rng.random()
+                if r_ < 0.6:
+                    o["labels"] = ["L%d" % i for i in range(nd)]
+                elif r_ < 0.8:
+                    o["labels"] = "run 7"                                  # one string for all diagrams
+                else:
+                    o["labels"] = ["L%d" % (i // 2) for i in range(nd)]    # a repeated label
             if nd > 1 and rng.random() < 0.3:
                 o["plot_only"] = sorted(rng.sample(range(nd), rng.randint(1, nd)))
             if rng.random() < 0.2:
@@ -263,9 +270,10 @@ def check_plot_diagrams(ax, new_colls, new_lines, dgms, opts, site, opi):
         raise Violation("legend-as-requested", site, "labels", "collections are labelled %r, requested %r" % (got_labels, want_labels), opi)
     if want_legend and leg is not None:
         texts = [t.get_text() for t in leg.get_texts()]
-        for w in want_labels:
-            if w not in texts:
-                raise Violation("legend-as-requested", site, "labels", "legend shows %r, diagram label %r missing" % (texts, w), opi)
+        for w in set(want_labels):
+            if texts.count(w) < want_labels.count(w):
+                raise Violation("legend-as-requested", site, "labels" if w not in texts else "label-multiplicity",
+                                "legend shows %r; %d plotted diagram(s) carry the label %r" % (texts, want_labels.count(w), w), opi)
 
 
 def expected_segments(A, B, rows):
@@ -428,6 +436,11 @@ def run_case(case, sched):
                     reused += 1
                 if op.get("int_arrays"):
                     arrs = [a.astype(np.int64) if np.isfinite(a).all() and np.all(a == np.round(a)) else a for a in arrs]
+                lay = op.get("layout", "c")
+                if lay == "fortran" and op.get("pool_ids") is None:
+                    arrs = [np.asfortranarray(a_) for a_ in arrs]
+                elif lay == "transposed" and op.get("pool_ids") is None:
+                    arrs = [np.array([a_[:, 0], a_[:, 1]]).T for a_ in arrs]       # a (2, n) array seen as (n, 2)
                 arg = arrs if (op.get("as_list", True) or len(arrs) > 1) else arrs[0]
                 V.plot_diagrams(arg, ax=given, **opts)
             elif kind in ("bottleneck_matching", "wasserstein_matching"):
